@@ -13,7 +13,7 @@ mkdir -p out/m; cp $raw/demo.py out/m/demo.py
 git apply $raw/patch.diff; ap=$?
 /venv/bin/python out/m/demo.py >/tmp/conf-$name.mut.log 2>&1; rc_mut=$?
 /venv/bin/python -m pytest -q -p no:cacheprovider --timeout=900 -q --junitxml=/tmp/conf-$name.xml >/tmp/conf-$name.pytest.log 2>&1
-/venv/bin/python - "$name" "$raw" $ap $rc_clean $rc_mut <<'PY'
+/venv/bin/python - "$name" "$raw" $ap $rc_clean $rc_mut $BASE <<'PY'
 import sys, json, xml.etree.ElementTree as ET
 name, raw, ap, rc_clean, rc_mut = sys.argv[1], sys.argv[2], int(sys.argv[3]), int(sys.argv[4]), int(sys.argv[5])
 base = set(json.load(open('/root/.vp/BASELINE.json'))['stable_pass'])
@@ -25,7 +25,7 @@ try:
 except Exception as e:
     passed = set(); print('junit parse error', e)
 missing = sorted(base - passed)
-res = {"name": name, "base_commit": "c38f85e", "patch_applies": ap == 0, "demo_exit_clean": rc_clean, "demo_exit_mutated": rc_mut,
+res = {"name": name, "base_commit": sys.argv[6], "patch_applies": ap == 0, "demo_exit_clean": rc_clean, "demo_exit_mutated": rc_mut,
        "baseline_tests": len(base), "baseline_tests_passing_with_patch": len(base & passed), "baseline_tests_broken": missing[:10],
        "confirmed": ap == 0 and rc_clean == 0 and rc_mut != 0 and not missing}
 json.dump(res, open(raw + '/confirm.json', 'w'), indent=1)
